@@ -414,7 +414,9 @@ def steps_strategy(version):
                                      # the id is hashed as UTF-8
                                      's\u00e9rveur-\u00fcn\u00ef',
                                      '\u670d\u52a1\u5668-01',
-                                     'id\U0001f600']),
+                                     'id\U0001f600',
+                                     # only exactly '-' means offline mode
+                                     '-5f3a9c0d12e4b7a1', '-1', '--', '- ']),
                     # the key in any DER form the client's parser accepts
                     st.sampled_from(['spki', 'spki', 'pkcs1',
                                      'spki_no_null']))
